@@ -1,6 +1,7 @@
 package main
 
 import (
+	"math"
 	"fmt"
 	"sort"
 	"time"
@@ -69,6 +70,17 @@ func c17Ops() []c17Op {
 		m.hsamples[lbl("hv", k2)] = append(m.hsamples[lbl("hv", k2)], 1)
 		m.hbounds[lbl("hv", k2)] = []float64{1, 2}
 	}})
+	// a second value histogram whose (strictly increasing) bounds have the same identity in the scope's bucket
+	// cache as {1,2} (the identity is the sum of the bit patterns): it must still be exposed with its own bounds
+	wspec := tally.ValueBuckets{0.5, 4}
+	for _, x := range []float64{0.75, 3} {
+		x := x
+		ops = append(ops, c17Op{fmt.Sprintf("hw rec %v", x), func(r tally.Scope, m *c17Model) {
+			r.SubScope("s").Histogram("hw", wspec).RecordValue(x)
+			m.hsamples[lbl("s_hw", map[string]string{})] = append(m.hsamples[lbl("s_hw", map[string]string{})], x)
+			m.hbounds[lbl("s_hw", map[string]string{})] = []float64{0.5, 4}
+		}})
+	}
 	for _, d := range []time.Duration{1140 * time.Millisecond, 1390 * time.Millisecond, time.Second, 3 * time.Second} {
 		d := d
 		ops = append(ops, c17Op{fmt.Sprintf("hd rec %v", d), func(r tally.Scope, m *c17Model) {
@@ -134,6 +146,17 @@ func gatherCheck(reg *prom.Registry, m *c17Model, timers map[string]uint64) (str
 				samples := m.hsamples[id]
 				if mt.Histogram.GetSampleCount() != uint64(len(samples)) {
 					return "histogram-total", fmt.Sprintf("%s total %d, %d samples recorded", id, mt.Histogram.GetSampleCount(), len(samples))
+				}
+				if hb := m.hbounds[id]; hb != nil {
+					var exposed []float64
+					for _, b := range mt.Histogram.Bucket {
+						if !math.IsInf(b.GetUpperBound(), 1) {
+							exposed = append(exposed, b.GetUpperBound())
+						}
+					}
+					if fmt.Sprint(exposed) != fmt.Sprint(hb) {
+						return "histogram-bounds", fmt.Sprintf("%s exposed with bounds %v, created with %v", id, exposed, hb)
+					}
 				}
 				for _, b := range mt.Histogram.Bucket {
 					var want uint64
